@@ -370,6 +370,12 @@ pub fn c04_derived(reg: &Registry, cfg: &Cfg, out: &mut Out, sweep: bool) {
                     }
                     pairs.push((zero(), base[1 + salt % (base.len() - 1)]));
                     pairs.push((rnd_amount(&mut rng, -10, 20), rnd_amount(&mut rng, -10, 20)));
+                    // small and large quotients / products of ordinary amounts
+                    let (tiny, mid) = (from_parts_dec(salt % 2 == 1, 3, -4), from_parts_dec(false, 15, -1));
+                    pairs.push((tiny, mid));
+                    if (salt / 2) % 2 == 0 || cfg.thorough {
+                        pairs.push((mid, tiny));
+                    }
                     if cfg.thorough {
                         pairs.push((one(), one()));
                         pairs.push((rnd_amount(&mut rng, -20, 30), rnd_amount(&mut rng, -4, 4)));
